@@ -269,6 +269,18 @@ Theorem C04_whole_run_bookkeeping_partial : forall m lks gd li tag alt gs,
 Proof. exact gsub_apply_lookup_whole_run. Qed.
 Print Assumptions C04_whole_run_bookkeeping_partial.
 
+(* contextual lookups nest to depth SUBST_RECURSION_LIMIT = 2 below the top-level lookup; one level deeper the
+   run fails with LimitExceeded instead of recursing *)
+Theorem C04_recursion_limit :
+  recursion_limit = 2%nat /\
+  forall lookups gd tag pmt si li gs index lk i,
+  get_lookup lookups li = Ok lk ->
+  (exists subs, lk_body lk = LContext subs) \/ (exists subs, lk_body lk = LChain subs) ->
+  find_nth pmt gd (ids gs) index (Z.to_nat si) = Some i -> i < len gs ->
+  apply_subst 0 lookups gd tag pmt si li gs index = Err LimitExceeded.
+Proof. exact (conj recursion_limit_value recursion_limit_refuses). Qed.
+Print Assumptions C04_recursion_limit.
+
 (* non-vacuity: a context rule whose nested ligature eats more than the input sequence, and a nested deletion
    followed by a second record at the vanished position (both panicked before the fixes) *)
 Example C04_context_examples :
